@@ -226,6 +226,26 @@ fn dig_fri<H: ElementHasher<BaseField = F64>>(hname: &str, r: &mut Rng) {
     }
 }
 
+/// TraceTable::fragments(): the trace is filled fragment by fragment (a parallel iterator in the concurrent build)
+fn dig_trace_table(r: &mut Rng) {
+    use winter_prover::TraceTable;
+    for &(width, log_len, log_frag) in &[(3usize, 6u32, 3u32), (5, 10, 4), (2, 12, 7), (9, 11, 11), (1, 13, 1)] {
+        let len = 1usize << log_len;
+        let frag = 1usize << log_frag;
+        let seed = F64::new(r.next_u64());
+        let mut t = TraceTable::<F64>::new(width, len);
+        t.fragments(frag).for_each(|mut f| {
+            let off = f.offset() as u64;
+            let idx = f.index() as u64;
+            f.fill(|st| { for (c, x) in st.iter_mut().enumerate() { *x = seed + F64::new(off * 31 + c as u64 + idx); } },
+                   |i, st| { for (c, x) in st.iter_mut().enumerate() { *x = *x * *x + F64::new(off + i as u64 + c as u64); } });
+        });
+        let mut acc = Vec::new();
+        for c in 0..width { acc.extend_from_slice(&ser(t.get_column(c))); }
+        out(&format!("tracetable.fragments width={width} len={len} fragment={frag}"), dg(&acc));
+    }
+}
+
 fn mk_spec(width: usize, log_n: u32, deg: u32, periodic: Vec<usize>, aux: usize, seed: u64) -> Spec {
     let mut s = Spec::simple(width, log_n, deg, seed);
     if !periodic.is_empty() { s.use_per = (0..width).map(|c| c % 2 == 0).collect(); s.periodic = periodic; }
@@ -323,6 +343,7 @@ fn digests(seed: u64, scale: usize) {
     dig_matrix::<F64, Rp64_256>("f64.rp64", &mut r, 1);
     dig_matrix::<F128, Sha3_256<F128>>("f128.sha3", &mut r, 1);
     dig_matrix_ext(&mut r);
+    dig_trace_table(&mut r);
     dig_fri::<Blake3_256<F64>>("blake3", &mut r);
     dig_fri::<Rp64_256>("rp64", &mut r);
     dig_proofs(scale);
